@@ -333,12 +333,53 @@ def twin_rewritten(binpath, res, seed):
             res.inconclusive.append(f"twin control rejected: {o['runs'][0].get('e')}")
 
 
+def same_named_steps(binpath, res, seed):
+    """a layout may list several steps under one name (names need not be unique), each with its own functionaries and
+    threshold: every listed step needs enough valid links by keys authorised for *that* listing"""
+    rng = common.rng_for(seed, PROP, 6100)
+    W = scen.World(binpath)
+    pool = ["ed2", "ed3", "ed4", "ed5", "edp1", "ec-b"]
+    plans, reqs = [], []
+    for i in range(24):
+        a, b, c = rng.sample(pool, 3)
+        listings = rng.choice([[[a], [b]], [[b], [a]], [[a], [a, b]], [[a, b], [b]], [[a], [b], [c]], [[a], [a]]])
+        thr = [rng.choice([1, 1, len(l)]) for l in listings]
+        present = rng.choice([[a], [b], [a, b], [a, b, c], [c]])
+        steps = [scen.mk_step("build", t, [W.kid(k) for k in l], [], [["ALLOW", "*"]], [["ALLOW", "*"]]) for l, t in zip(listings, thr)]
+        layout = scen.mk_layout(W, [a, b, c], steps, [])
+        plans.append((listings, thr, present, len(reqs)))
+        reqs.append((layout, ["ed0"], "new"))
+        for k in present:
+            reqs.append((pipeline.leaf_link("build", 0), [k], "new"))
+    wires = scen.sign_all(binpath, reqs, nproc=1)
+    cases = []
+    for listings, thr, present, b in plans:
+        files = {f"build.{W.pfx(k)}.link": scen.dumps(wires[b + 1 + j]) for j, k in enumerate(present)}
+        short = [(l, t) for l, t in zip(listings, thr) if len([k for k in present if k in l]) < max(1, t)]
+        cases.append(scen.verify_case(wires[b], [[W.kid("ed0"), W.pub("ed0")]], files, reps=2,
+                                      meta={"expect": "reject" if short else "either", "listings": listings, "thr": thr, "present": present,
+                                            "short": [list(x) for x in short]}))
+    obs = common.run_batch(binpath, cases)
+    for c, o in zip(cases, obs):
+        m = c["meta"]
+        if scen.harness_failed(o):
+            res.inconclusive.append(f"executor failure: {str(o)[:200]}")
+            continue
+        ok = any(r["v"] == "ok" for r in o["runs"])
+        res.note([c["layout"], sorted(c["files"])], True, cls=["same_named_steps:expect_" + m["expect"], "same_named_steps:" + ("accepted" if ok else "rejected")], n=2)
+        if ok and m["expect"] == "reject":
+            res.violate("accept-undercounted:same_named_steps", f"verification succeeded although the listing(s) {m['short']} (functionaries, threshold) of the steps named "
+                        f"'build' have too few links by their own functionaries; links present by {m['present']}; all listings {m['listings']} thresholds {m['thr']}",
+                        c, o, "reject")
+
+
 def main(ctx):
     res = common.Result()
     n = 120 if not ctx.thorough else 3500
     for p in common.pmap(shard, [(ctx.bin, ctx.seed, s, n) for s in range(common.NPROC)]):
         res.merge(p)
     prefix_collision(ctx.bin, res, ctx.seed)
+    same_named_steps(ctx.bin, res, ctx.seed)
     for p in common.pmap(crowd.functionaries, [(ctx.bin, ctx.seed, PROP, s, 7 if not ctx.thorough else 42, "authorised") for s in range(4 if not ctx.thorough else common.NPROC)]):
         res.merge(p)
     twin_rewritten(ctx.bin, res, ctx.seed)
@@ -350,7 +391,7 @@ def main(ctx):
              "outsider, empty sub-layout, unsigned}; 25% exact-threshold positive controls; non-trivial = link "
              "directory not empty; distinct by SHA-256 of (layout, directory)",
         assumptions=["ground truth of who validly signed what is by construction"],
-        required=["authorised_list_names_a_key_twice:reject", "crowd:authorised:one_short_plus_outsiders", "crowd:authorised:exactly_threshold", "crowd:accepted", "crowd:rejected", "positive_control_accepted", "expect:reject", "observed:reject", "state:valid(unauth)", "state:misfiled",
+        required=["same_named_steps:expect_reject", "same_named_steps:rejected", "authorised_list_names_a_key_twice:reject", "crowd:authorised:one_short_plus_outsiders", "crowd:authorised:exactly_threshold", "crowd:accepted", "crowd:rejected", "positive_control_accepted", "expect:reject", "observed:reject", "state:valid(unauth)", "state:misfiled",
                   "state:flipped", "state:edited", "state:double", "state:cosigned_broken_own", "state:entry_under_unknown_scheme_key", "state:odd_file_name", "state:prefix_collision:control", "state:twin:genuine", "state:twin:rewritten_after_signing", "state:prefix_collision:link_by_the_other_steps_functionary",
                   "decided_by_authorisation_rule", "threshold:0",
                   "threshold:2", "threshold:3"],
